@@ -34,7 +34,9 @@ ASSUMPTIONS = [
 PARTIAL = ('Nothing of the statement is left unproved for the model: C07_lex_agrees (single chunk), C07_chunking and '
            'C07_lex_agrees_chunks (per-line chunks) hold for every byte string. Limits: sources the reference grammar '
            'leaves undefined (Spec/LuaLex.v header: a CR not followed by LF, --[==[ comments, \\z and unknown escapes, 1e+5, '
-           'malformed numerals, later compound operators, raw line breaks in quoted strings) are outside every claim; '
+           'numeral runs in the sense of Lua 5.2\'s read_numeral - hexadecimal digits, dots, exponent letters and signs - that are '
+           'no numeral such as 1..2, 9do, 1end, 0x1p4 [1then, 3x, 0x1g ARE in the domain: number, then keyword / name], '
+           'later compound operators, raw line breaks in quoted strings) are outside every claim; '
            'get_token_count is compared between model and implementation only (the counting rule is not part of the '
            'lexical grammar).')
 CLAIM = dict(
@@ -167,7 +169,10 @@ def corpus_cases():
         b'0b1.1', b'?"hi"\n', b'a~=b', b'::l:: goto l', b'"\\256"', b'"', b'[[', b'--[[', b'\x0c',
         b'\xef\xbb\xbf = {}\n', b'x=\xef\xbb\xbf+1\n\xef\xbb\xbfy=2', b'\xff\xfe=1 \xfe\xff=2\n', b'a\xef\xbb\xbf=1',
         # `#` is the length operator wherever it stands; `include` is an ordinary name
-        b'total =\n  #include + #extra\nprint(total)\n', b'n=\n#include\n', b'#include x\n', b'x=1 #include y\n']}
+        b'total =\n  #include + #extra\nprint(total)\n', b'n=\n#include\n', b'#include x\n', b'x=1 #include y\n',
+        # a numeral ends where Lua 5.2's read_numeral stops: a keyword / name may follow it directly (9do, 1and stay
+        # malformed: d and a are hexadecimal digits)
+        b'if x<1then y=2 end', b'3x', b'0x1g', b'y=x>2or 1', b'for i=1,9 do end']}
 
 
 # ------------------------------------------------------------------ implementation
